@@ -123,6 +123,25 @@ def shapes(tier: str) -> list[tuple[str, Any]]:
     out.append(("Event()", lambda: Event()))
     out.append(("StopEvent()", lambda: StopEvent()))
     out.append(("Typed(min)", lambda: E.Typed(i=-1)))
+
+    # typed fields left to their defaults (never passed, never assigned): the value the event carries must come back
+    def stamped(cls: Any, fill: bool, **kw: Any) -> Any:
+        def mk() -> Any:
+            E.SEQ["n"] = 100  # the default_factory gives 101 for every event built by this thunk ...
+            e = cls(**kw)
+            E.SEQ["n"] = 500  # ... and something else if it is (wrongly) called again while loading
+            if fill:
+                e.tags.append("urgent")
+                e.tags.append("é")
+            return e
+
+        return mk
+
+    for v in vals[:4]:
+        out.append(("Stamped(default_factory seq)+dyn", stamped(E.Stamped, False, dyn=v)))
+        out.append(("Stamped(tags filled in place)+dyn", stamped(E.Stamped, True, note="x", dyn=v)))
+        out.append(("StampedStop(default_factory seq)+result", stamped(E.StampedStop, False, result=v)))
+        out.append(("StampedStop(tags filled in place)+result", stamped(E.StampedStop, True, result=v)))
     for i, _ in enumerate(exceptions()):
         out.append(("WorkflowFailedEvent(exc)", lambda i=i: WorkflowFailedEvent(step_name="s", exception=exceptions()[i], attempts=3, elapsed_seconds=1.25)))
         out.append(("StepFailedEvent(exc)", lambda i=i: StepFailedEvent(
@@ -137,7 +156,7 @@ def shapes(tier: str) -> list[tuple[str, Any]]:
 # ------------------------------------------------------------------ channels ----------------------------------
 _SER = JsonSerializer()
 REGISTRY = [Event, StartEvent, StopEvent, InputRequiredEvent, HumanResponseEvent, WorkflowCancelledEvent, WorkflowTimedOutEvent,
-            WorkflowFailedEvent, StepFailedEvent, E.Typed, E.Nested, E.TStart, E.TStop, E.TStopNested, E.TAsk, E.TAnswer]
+            WorkflowFailedEvent, StepFailedEvent, E.Typed, E.Nested, E.TStart, E.TStop, E.TStopNested, E.TAsk, E.TAnswer, E.Stamped, E.StampedStop]
 
 
 def ch_json(e: Event) -> Event:
@@ -306,7 +325,8 @@ def work(case: Any) -> Any:
 
 
 RULE = ("event shapes {Event, typed, nested model, Start/Stop/InputRequired/HumanResponse events and subclasses with typed "
-        "fields, stop-event subclasses, failure events with 12 exception kinds} x a JSON value alphabet (None, bools, ints "
+        "fields, typed fields left to a default_factory / mutable defaults filled in place, stop-event subclasses, failure "
+        "events with 12 exception kinds} x a JSON value alphabet (None, bools, ints "
         "> 2^53, floats, unicode/escape strings, nested lists/dicts depth <= 2, marker-like keys) in dynamic fields, results and "
         "Any-typed fields x 9 channels (JsonSerializer plain and nested, EventEnvelopeWithMetadata via qualified name / via "
         "registry, EventEnvelope.parse, persisted ticks: add_event, publish_event, step_result payloads incl. add_collected / "
